@@ -767,7 +767,15 @@ def _cat(fr, ts, dim=0, axis=None, **kw):
     return Tn.fresh(shape, content, result_kind(*ts), lib=ts[0].lib)
 
 
-@lib('torch.stack', 'numpy.stack', 'torch.vstack')
+@lib('torch.vstack')
+def _vstack(fr, ts, **kw):
+    ts = [as_tn(fr, t) for t in ts]
+    if all(t.rank == 1 for t in ts):
+        return _stack(fr, ts, 0)
+    return _cat(fr, ts, 0)
+
+
+@lib('torch.stack', 'numpy.stack')
 def _stack(fr, ts, dim=0, axis=None, **kw):
     ctx = fr.ctx
     if axis is not None:
@@ -1230,6 +1238,82 @@ def _m_mean(fr, x, dim=None, axis=None, keepdim=False, keepdims=False, **kw):
 @lib('torch.mean')
 def _mean(fr, x, *a, **kw):
     return _m_mean(fr, x, *a, **kw)
+
+
+def _minmax_method(which):
+    def f(fr, x, dim=None, axis=None, keepdim=False, keepdims=False, **kw):
+        """max / min: an assumed relation - the result bounds every element and is attained"""
+        ctx = fr.ctx
+        if axis is not None:
+            dim = axis
+        s = x.snapshot()
+        nm = O.fresh_name(which)
+        le = (lambda a, b: a <= b) if which == 'max' else (lambda a, b: a >= b)
+        sort = z3.RealSort() if x.kind == 'real' else z3.IntSort()
+        if dim is None:
+            v = z3.Const(nm, sort)
+            ctx.may_raise(O.eq(x.numel(), 0) if O.any_sym(*x.shape) else (x.numel() == 0), 'RuntimeError')
+            ctx.assume(O.forall_hyp(x.shape, lambda *i: le(s(*i), v)))
+            ctx.assume(O.exists_box(x.shape, lambda *i: O.eq(s(*i), v)))
+            ctx.trusted.add('axiom: tensor.%s bounds every element and is attained' % which)
+            return v
+        d = norm_dim(dim, x.rank)
+        rest = [q for q in range(x.rank) if q != d]
+        f_ = z3.Function(nm, *([z3.IntSort()] * len(rest)), sort) if rest else None
+        cst = z3.Const(nm, sort) if not rest else None
+
+        def val(*ri):
+            return f_(*[O.to_z3(i) for i in ri]) if rest else cst
+        fa = z3.Function(nm + '.arg', *([z3.IntSort()] * len(rest)), z3.IntSort()) if rest else None
+        ca = z3.Const(nm + '.arg', z3.IntSort()) if not rest else None
+
+        def arg(*ri):
+            return fa(*[O.to_z3(i) for i in ri]) if rest else ca
+        ctx.may_raise(x.shape[d] <= 0, 'RuntimeError' if x.lib == 'torch' else 'ValueError')
+        ctx.assume(O.forall_hyp(x.shape, lambda *i: le(s(*i), val(*[i[q] for q in rest]))))
+        rshape = [x.shape[q] for q in rest]
+
+        def attained(*ri):
+            idx = list(ri)
+            idx.insert(d, arg(*ri))
+            return And(0 <= arg(*ri), arg(*ri) < x.shape[d], O.eq(s(*idx), val(*ri)))
+        ctx.assume(O.forall_hyp(rshape, attained))
+        ctx.trusted.add('axiom: tensor.%s(dim) bounds every element of its slice and is attained' % which)
+        keep = keepdim or keepdims
+        if keep:
+            shp = [1 if q == d else x.shape[q] for q in range(x.rank)]
+            vals = Tn.fresh(shp, lambda *i: val(*[i[q] for q in rest]), x.kind, lib=x.lib)
+            idxs = Tn.fresh(shp, lambda *i: arg(*[i[q] for q in rest]), 'int', lib=x.lib)
+        else:
+            vals = Tn.fresh(rshape, lambda *i: val(*i), x.kind, lib=x.lib)
+            idxs = Tn.fresh(rshape, lambda *i: arg(*i), 'int', lib=x.lib)
+        if x.lib == 'np':
+            return vals
+        return MinMax(vals, idxs)
+    return f
+
+
+METHODS['Tn.max'] = _minmax_method('max')
+METHODS['Tn.min'] = _minmax_method('min')
+
+
+@method('Tn.scatter_add_')
+def _m_scatter_add_(fr, y, dim, index, src):
+    """y[k] += sum_r [index[r] == k] * src[r]   (rank 1; the axiom of C18)"""
+    ctx = fr.ctx
+    if y.rank != 1 or index.rank != 1 or src.rank != 1 or O.conc_int(dim) != 0:
+        raise Unsupported("scatter_add_ beyond rank 1")
+    R = index.shape[0]
+    ctx.may_raise(src.shape[0] < R if O.any_sym(src.shape[0], R) else (src.shape[0] < R), 'RuntimeError')
+    isn, ssn = index.snapshot(), src.snapshot()
+    n = y.shape[0]
+    bad = O.exists_box([R], lambda r: Or(isn(r) < 0, isn(r) >= n))
+    ctx.may_raise(bad, 'RuntimeError')
+    old = y.snapshot()
+    kind = 'real' if y.kind == 'real' or src.kind == 'real' else 'int'
+    new = Tn.fresh([n], lambda k: old(k) + Sum(0, R, lambda r: ite(O.eq(isn(r), k), ssn(r), 0), kind), y.kind, lib=y.lib)
+    y.write([('all',)], new, ctx)
+    return y
 
 
 @method('Tn.all')
